@@ -389,7 +389,19 @@ namespace c14
         ~Strict() { L().strict = false; }
     };
 
-    struct IMachine
+    // width of the size counter of a container type, read from the compiled class (private member, hence
+// -fno-access-control).  If the member is not called m_size any more (a harmless rename must not break the
+// harness build) the counter is taken to be as wide as size_t: the model then runs unbounded and a narrowed
+// counter is still caught by the boundary capacities through the behaviour oracle.
+template <class V> constexpr int msize_bits()
+{
+    if constexpr (requires { sizeof(V::m_size); })
+        return 8 * (int)sizeof(V::m_size);
+    else
+        return 8 * (int)sizeof(size_t);
+}
+
+struct IMachine
     {
         virtual ~IMachine() {}
         virtual void op(const std::vector<std::string> &w, hv::out &o) = 0;
@@ -450,7 +462,7 @@ namespace c14
 
         bool has(int r) { return r >= 0 && r < K && regs[r].v; }
         bool empty_reg(int r) { return r >= 0 && r < K && !regs[r].v; }
-        int width() override { return 8 * (int)sizeof(Vec::m_size); }
+        int width() override { return msize_bits<Vec>(); }
 
         void *place(int r)
         {
@@ -1075,7 +1087,7 @@ namespace c14
         SMachine(int k, bool c) : K(k), canary(c), regs(k) {}
         bool has(int r) { return r >= 0 && r < K && regs[r].s; }
         bool empty_reg(int r) { return r >= 0 && r < K && !regs[r].s; }
-        int width() override { return 8 * (int)sizeof(Str::m_size); }
+        int width() override { return msize_bits<Str>(); }
         void *place(int r)
         {
             regs[r].place.reset(new Place(canary, sizeof(Str)));
